@@ -6,6 +6,8 @@ import (
 	"encoding/xml"
 	"errors"
 	"fmt"
+	"os"
+	"path/filepath"
 	"sort"
 	"strings"
 	"time"
@@ -411,6 +413,50 @@ func trLoop(c trCase, parse func(i int) (core.TestSuite, error)) map[string]any 
 		o["roundtrip"] = trObserve(&again)
 	}
 	return o
+}
+
+// testresults-render writes, for the e2e binding, the per-attempt result files of each case into a directory:
+// c<id>.xml.<k> (structure "suites" for even ids, "flat" for odd), c<id>.go.<k> and c<id>.exit.<k> (exit status).
+func init() { register("testresults-render", testResultsRender) }
+
+func testResultsRender(args []string) error {
+	defer flush()
+	dir := args[1]
+	return readCases(args[0], func(raw json.RawMessage) error {
+		var c trCase
+		if err := json.Unmarshal(raw, &c); err != nil {
+			return err
+		}
+		layout := "flat"
+		if c.ID%2 == 0 {
+			layout = "suites"
+		}
+		for k, run := range c.Runs {
+			exit := "0"
+			for _, e := range run {
+				if e.Out == "fail" || e.Out == "error" {
+					exit = "1"
+				}
+			}
+			files := map[string][]byte{
+				fmt.Sprintf("c%d.xml.%d", c.ID, k+1):  trRenderXML(run, layout),
+				fmt.Sprintf("c%d.go.%d", c.ID, k+1):   trRenderGo(run),
+				fmt.Sprintf("c%d.exit.%d", c.ID, k+1): []byte(exit + "\n"),
+			}
+			for name, data := range files {
+				if err := os.WriteFile(filepath.Join(dir, name), data, 0644); err != nil {
+					return err
+				}
+			}
+		}
+		emit(map[string]any{"id": c.ID, "attempts": len(c.Runs), "layout": layout,
+			"names": map[string]string{"n1": trNames["n1"], "n2": trNames["n2"]},
+			"classes": map[string]string{"c1": trClasses["c1"], "c2": trClasses["c2"]},
+			"gonames": map[string]string{
+				"c1/n1": trGoName(trEntry{Cls: "c1", Name: "n1"}), "c1/n2": trGoName(trEntry{Cls: "c1", Name: "n2"}),
+				"c2/n1": trGoName(trEntry{Cls: "c2", Name: "n1"}), "c2/n2": trGoName(trEntry{Cls: "c2", Name: "n2"})}})
+		return nil
+	})
 }
 
 func testResultsEngine(args []string) error {
